@@ -320,6 +320,24 @@ def rule_noninterference(an, res):
     """C19: peek hits, misses, rejected inserts, absent-key erases have no effect on container state"""
     prop = 'C19'
     rule_insert_table(an, res, prop)
+    # range forms: whatever happens outside the per-element bodies happens also when every element is a no-effect case
+    for cm, roles in an.classes():
+        for m in an.entry_points(cm):
+            if ops.kind_of(m) not in ('INSERT', 'FIND', 'ERASE'):
+                continue
+            for top in method_segments(an, cm, roles, m):
+                if not top.loops or not ops.find_bodies(top, m) or top.conds_of('PRESENT'):
+                    continue
+                pl = set(ops.purge_loops(top)) if roles.kind == 'maplist' else set()
+                extra = [e for e in top.state_effects() if not (roles.kind == 'maplist' and e.kind == 'AUX_ERASE_RANGE')]
+                for i, (lp, segs) in enumerate(top.loops):
+                    if i in pl or any(ops.find_bodies(s2, m) for s2 in segs):
+                        continue
+                    extra += [e for s2 in segs for e in s2.state_effects()]
+                res.ob('R-PURE-NOOP', ok=not extra)
+                if extra:
+                    V(res, prop, 'R-PURE-NOOP', cm, m.key(), 'range call changes state outside its per-element operations: %s' % ','.join(sorted(set(e.kind for e in extra)))[:80],
+                      extra[0].site, 'even a range whose elements are all rejected / missing / absent has these effects: %s' % [repr(e) for e in extra][:3])
     for cm, roles in an.classes():
         for m in an.entry_points(cm):
             k = ops.kind_of(m)
